@@ -85,68 +85,11 @@ func codecParallel(formats ...string) func(c *Ctx) {
 				c.Case(idx, func(k *K) {
 					k.Input("format", format)
 					r := k.Rand()
-					// 1. wear
-					for w := 0; w < 6; w++ {
-						x := nearValid(r, gen)
-						catch(func() { collect(cd.seq(bytes.NewReader(x)), len(x)+8) })
-						catch(func() {
-							collect(cd.seq(&faultReader{data: x, k: r.IntN(len(x) + 1), forever: w%2 == 0, budget: len(x) + 10000, err: faultErrors[w%len(faultErrors)]}), 2*len(x)+16)
-						})
-						wf := plainWellFormed(r, gen)
-						catch(func() {
-							for range cd.seq(bytes.NewReader(wf)) {
-								break
-							}
-						})
-						catch(func() {
-							one := cd.seq(bytes.NewReader(wf))
-							collect(one, len(wf)+8)
-							collect(one, len(wf)+8)
-						})
-						catch(func() { collect(cd.file("/nonexistent/dir/x"+cd.ext), 4) })
+					codecWear(k, r, cd, gen)
+					if !codecLockstep(k, r, cd, gen, format) {
+						return
 					}
-					k.Count("wear_iterations", 6*5)
-					// 2. lockstep
-					type stream struct {
-						want []item
-						next func() (string, error, bool)
-						stop func()
-						got  []item
-					}
-					var streams []*stream
-					for s := 0; s < 3; s++ {
-						x := plainWellFormed(r, gen)
-						for len(x) < 300 {
-							x = append(x, plainWellFormed(r, gen)...)
-						}
-						want, _ := collect(cd.seq(bytes.NewReader(x)), len(x)+8)
-						next, stop := iter.Pull2(cd.seq(bytes.NewReader(x)))
-						streams = append(streams, &stream{want: want, next: next, stop: stop})
-					}
-					for live := len(streams); live > 0; {
-						live = 0
-						for _, st := range streams {
-							if st.next == nil {
-								continue
-							}
-							key, err, ok := st.next()
-							if !ok || len(st.got) > len(st.want)+2 {
-								st.stop()
-								st.next = nil
-								continue
-							}
-							st.got = append(st.got, item{Key: key, Err: err != nil})
-							live++
-						}
-					}
-					for si, st := range streams {
-						if !sameTrace(st.got, st.want) {
-							k.Failf("lockstep", "%s: reader %d of three that were open at the same time and advanced in turn delivered\n got  %s\n want %s (what it delivers alone)", format, si, traceString(st.got), traceString(st.want))
-							return
-						}
-					}
-					k.Count("lockstep_streams", 3)
-					// 3. parallel
+					// parallel
 					runParallel(k, 8, func(g int, r *rand.Rand) string {
 						for it := 0; it < 40; it++ {
 							var text bytes.Buffer
@@ -180,6 +123,146 @@ func codecParallel(formats ...string) func(c *Ctx) {
 			}
 		}
 	}
+}
+
+// codecHistories (plain build, one goroutine, so that whatever a pool or cache
+// hands out is deterministic): rounds of wear, lockstep and nested readers.
+func codecHistories(formats ...string) func(c *Ctx) {
+	return func(c *Ctx) {
+		n := c.N(8, 80)
+		idx := int64(0)
+		for _, format := range formats {
+			cd := codecByName(format)
+			gen := format
+			if gen == "samh" {
+				gen = "sam"
+			}
+			for i := 0; i < n; i++ {
+				c.Case(idx, func(k *K) {
+					k.Input("format", format)
+					r := k.Rand()
+					for round := 0; round < 4; round++ {
+						codecWear(k, r, cd, gen)
+						if !codecLockstep(k, r, cd, gen, format) || !codecNested(k, r, cd, gen, format) {
+							return
+						}
+					}
+					k.Evals(7)
+					k.Nontrivial([]byte(format), []byte{byte(i)})
+				})
+				idx++
+			}
+		}
+	}
+}
+
+// codecWear: iterations that end in every unusual way.
+func codecWear(k *K, r *rand.Rand, cd *codec, gen string) {
+	for w := 0; w < 6; w++ {
+		x := nearValid(r, gen)
+		catch(func() { collect(cd.seq(bytes.NewReader(x)), len(x)+8) })
+		catch(func() {
+			collect(cd.seq(&faultReader{data: x, k: r.IntN(len(x) + 1), forever: w%2 == 0, budget: len(x) + 10000, err: faultErrors[w%len(faultErrors)]}), 2*len(x)+16)
+		})
+		wf := plainWellFormed(r, gen)
+		catch(func() {
+			for range cd.seq(bytes.NewReader(wf)) {
+				break
+			}
+		})
+		catch(func() {
+			one := cd.seq(bytes.NewReader(wf))
+			collect(one, len(wf)+8)
+			collect(one, len(wf)+8)
+		})
+		catch(func() { collect(cd.file("/nonexistent/dir/x"+cd.ext), 4) })
+	}
+	k.Count("wear_iterations", 6*5)
+}
+
+func wellFormedAtLeast(r *rand.Rand, gen string, n int) []byte {
+	x := plainWellFormed(r, gen)
+	for len(x) < n {
+		x = append(x, plainWellFormed(r, gen)...)
+	}
+	return x
+}
+
+// codecLockstep: three readers over different texts, open at once, advanced in turn.
+func codecLockstep(k *K, r *rand.Rand, cd *codec, gen, format string) bool {
+	type stream struct {
+		want []item
+		next func() (string, error, bool)
+		stop func()
+		got  []item
+	}
+	var streams []*stream
+	for s := 0; s < 3; s++ {
+		x := wellFormedAtLeast(r, gen, 300)
+		want, _ := collect(cd.seq(bytes.NewReader(x)), len(x)+8)
+		next, stop := iter.Pull2(cd.seq(bytes.NewReader(x)))
+		streams = append(streams, &stream{want: want, next: next, stop: stop})
+	}
+	for live := len(streams); live > 0; {
+		live = 0
+		for _, st := range streams {
+			if st.next == nil {
+				continue
+			}
+			key, err, ok := st.next()
+			if !ok || len(st.got) > len(st.want)+2 {
+				st.stop()
+				st.next = nil
+				continue
+			}
+			st.got = append(st.got, item{Key: key, Err: err != nil})
+			live++
+		}
+	}
+	for si, st := range streams {
+		if !sameTrace(st.got, st.want) {
+			k.Failf("lockstep", "%s: reader %d of three that were open at the same time and advanced in turn delivered\n got  %s\n want %s (what it delivers alone)", format, si, traceString(st.got), traceString(st.want))
+			return false
+		}
+	}
+	k.Count("lockstep_streams", 3)
+	return true
+}
+
+// codecNested: inside the loop over one stream, at every item, another reader
+// over another text is opened and read (completely, or abandoned after its
+// first item) — all in one goroutine.
+func codecNested(k *K, r *rand.Rand, cd *codec, gen, format string) bool {
+	outer := wellFormedAtLeast(r, gen, 300)
+	inner := wellFormedAtLeast(r, gen, 100)
+	wantOuter, _ := collect(cd.seq(bytes.NewReader(outer)), len(outer)+8)
+	wantInner, _ := collect(cd.seq(bytes.NewReader(inner)), len(inner)+8)
+	var got []item
+	n := 0
+	for key, err := range cd.seq(bytes.NewReader(outer)) {
+		got = append(got, item{Key: key, Err: err != nil})
+		if len(got) > len(wantOuter)+2 {
+			break
+		}
+		n++
+		if n%2 == 0 {
+			for range cd.seq(bytes.NewReader(inner)) {
+				break
+			}
+			continue
+		}
+		in, over := collect(cd.seq(bytes.NewReader(inner)), len(inner)+8)
+		if over || !sameTrace(in, wantInner) {
+			k.Failf("nested", "%s: a reader opened and read inside the loop over another reader delivered\n got  %s\n want %s", format, traceString(in), traceString(wantInner))
+			return false
+		}
+	}
+	if !sameTrace(got, wantOuter) {
+		k.Failf("nested", "%s: a reader inside whose loop other readers were opened (and read or abandoned) delivered\n got  %s\n want %s", format, traceString(got), traceString(wantOuter))
+		return false
+	}
+	k.Count("nested_streams", 1)
+	return true
 }
 
 func alignParallel(c *Ctx) {
